@@ -271,7 +271,10 @@ def combos(impl, thorough, seed):
         hands = ["reti", "clr"] if not thorough else ["reti", "clr", "nest"]
         imrs = [0x8F] if not thorough else [0x00, 0x8F, 0x0F]
         timers = [c12.TIMERS[2]] if not thorough else [c12.TIMERS[0], c12.TIMERS[2], c12.TIMERS[6]]
-    return [(p, hn, i, t) for p in progs for hn in hands for i in imrs for t in timers]
+    out = [(p, hn, i, t) for p in progs for hn in hands for i in imrs for t in timers]
+    # a machine whose host switched keyboard interrupts off (the switch is part of what a snapshot must carry)
+    out += [("nop@kboff", "reti", 0x8F, c12.TIMERS[2]), ("halt@kboff", "reti", 0x8F, c12.TIMERS[0])]
+    return out
 
 
 def run(ctx) -> None:
